@@ -1,10 +1,13 @@
 import SycVerif.Driver.Route
 import SycVerif.Driver.Num
+import SycVerif.Driver.IsDynRead
 /-! Native driver: one request per line on stdin (`<engine> <op> <args…>`), one reply per line. -/
 open SycVerif.Driver
 
 def dispatch (line : String) : String :=
-  match line.trimAscii.toString.splitOn " " with
+  let line := line.trimAscii.toString
+  if line.startsWith "isdyn classify " then IsDynRead.handle (line.drop 15).toString else
+  match line.splitOn " " with
   | "route" :: args => Route.handle args
   | "num" :: args => Num.handle args
   | _ => "bad-op"
